@@ -57,7 +57,7 @@ def run(ctx):
     ind = os.path.join(ctx.work, "in-c19")
     os.makedirs(ind, exist_ok=True)
     json.dump(scheds, open(os.path.join(ind, "schedules.json"), "w"))
-    res = ctx.go_driver("c19dbft", "TestDriver", env={"VERIF_IN": ind, "VERIF_EXTRA": 40 if q else 80, "VERIF_N7": 1 if q else 8},
+    res = ctx.go_driver("c19dbft", "TestDriver", env={"VERIF_IN": ind, "VERIF_EXTRA": 28 if q else 80, "VERIF_N7": 1 if q else 8},
                         timeout=3400)
     ctx.absorb(res)
     trace = os.path.join(res["_out"], "trace.ndjson")
@@ -95,6 +95,14 @@ def run(ctx):
     if os.path.exists(rp):
         import importlib.util
         sp = importlib.util.spec_from_file_location("check_c19_recovery", rp)
+        m = importlib.util.module_from_spec(sp)
+        sp.loader.exec_module(m)
+        m.run_ext(ctx)
+    # extension: the consensus service inside the real P2P server (spec/consnet, harness/c19net)
+    np_ = os.path.join(os.path.dirname(os.path.abspath(__file__)), "c19_net.py")
+    if os.path.exists(np_):
+        import importlib.util
+        sp = importlib.util.spec_from_file_location("check_c19_net", np_)
         m = importlib.util.module_from_spec(sp)
         sp.loader.exec_module(m)
         m.run_ext(ctx)
